@@ -72,8 +72,7 @@ class World:
                     DateTime=self.ctor, Date=self.ctor, _WEEK_STARTS_AT=week[0], _WEEK_ENDS_AT=week[1])
         self.glob["$globals"] = {**consts, "WeekDay": WEEKDAY, "pendulum": pend, "ValueError": ValueError, "int": int, "str": str,
                                  "calendar": Stub(monthcalendar=_calendar.monthcalendar, monthrange=_calendar.monthrange),
-                                 "datetime": Stub(datetime=ClassStub(_new=lambda *a, **k: _dt.datetime(*a, **k), _isa=lambda v: isinstance(v, _dt.datetime)),
-                                                  timedelta=_dt.timedelta, date=_dt.date),
+                                 "datetime": Stub(datetime=_dt.datetime, timedelta=_dt.timedelta, date=_dt.date, time=_dt.time, timezone=_dt.timezone),
                                  "DateTime": self.ctor, "Date": self.ctor, "UTC": _dt.timezone.utc, "date": _dt.date, "timedelta": _dt.timedelta, "any": any}
 
     # -- the zone ----------------------------------------------------------------------------------------------------------
@@ -183,7 +182,7 @@ class World:
         if own and self.interpret_add:
             del prim["add"], prim["subtract"]
         return Obj(_methods=self.meths if own else {}, _props=self.props if own else set(), _ctor=self.ctor,
-                   _natives={}, _date=d, _wall=None, _eqkey=(d.toordinal(), 0), **({k: v for k, v in self.class_fields.items()} if own else {}),
+                   _natives={}, _date=d, _wall=None, _eqkey=(d.toordinal(), 0), _types=(_dt.date,), **({k: v for k, v in self.class_fields.items()} if own else {}),
                    year=d.year, month=d.month, day=d.day, day_of_week=d.weekday(), quarter=(d.month - 1) // 3 + 1,
                    days_in_month=_calendar.monthrange(d.year, d.month)[1], format=lambda f, *a, **k: _format(d, f),
                    weekday=d.weekday, isoweekday=d.isoweekday, toordinal=d.toordinal, **prim)
@@ -224,7 +223,7 @@ class World:
 
         own = self.cls == "DateTime"
         me = Obj(_methods=self.meths if own else {}, _props=self.props if own else set(), _ctor=self.ctor,
-                 _natives={}, _wall=w, _date=w.date(), _eqkey=(w,), **({k: v for k, v in self.class_fields.items()} if own else {}),
+                 _natives={}, _wall=w, _date=w.date(), _eqkey=(w,), _types=(_dt.datetime,), **({k: v for k, v in self.class_fields.items()} if own else {}),
                  year=w.year, month=w.month, day=w.day, hour=w.hour, minute=w.minute, second=w.second, microsecond=w.microsecond, fold=fold,
                  day_of_week=w.weekday(), quarter=(w.month - 1) // 3 + 1, days_in_month=_calendar.monthrange(w.year, w.month)[1],
                  tz=zone, tzinfo=zone, timezone=zone, timezone_name=getattr(zone, "name", ""),
@@ -286,7 +285,7 @@ class TimeWorld:
 
     def time(self, hour=0, minute=0, second=0, microsecond=0, tzinfo=None, fold=0) -> Obj:
         t = _dt.time(hour, minute, second, microsecond)
-        return Obj(_methods=self.meths, _props=self.props, _ctor=self.ctor, _natives={}, _tod=t, _eqkey=(t,),
+        return Obj(_methods=self.meths, _props=self.props, _ctor=self.ctor, _natives={}, _tod=t, _eqkey=(t,), _types=(_dt.time,),
                    hour=hour, minute=minute, second=second, microsecond=microsecond, tzinfo=tzinfo, fold=fold)
 
     def call(self, recv, name: str, args: list[Any], kws: dict[str, Any] | None = None):
